@@ -16,6 +16,7 @@ pub use serde_json::{Value as Json, json};
 pub mod gen_entry;
 pub mod c07;
 pub mod strict_json;
+pub mod qgate;
 
 // ------------------------------------------------------------------------------------------------
 // PRNG: splitmix64; every random choice of a run derives from the one seed.
